@@ -4,36 +4,7 @@
 //@import indicator_base.rs.tpl
 //@include indicator_traits.rs
 
-// ---- indicators/mod.rs: the (high, low, close) snapshot kept by EaseOfMovement
-//@extract src/indicators/mod.rs struct:HLC keepderive
-//@end
-impl HLC {
-//@extract src/indicators/mod.rs impl[HLC]::from pub
-	ensures r.high == src.high_s() && r.low == src.low_s() && r.close == src.close_s(),
-//@end
-}
-impl OHLCV for HLC {
-	open spec fn open_s(&self) -> ValueType { nan_value() }
-	open spec fn high_s(&self) -> ValueType { self.high }
-	open spec fn low_s(&self) -> ValueType { self.low }
-	open spec fn close_s(&self) -> ValueType { self.close }
-	open spec fn volume_s(&self) -> ValueType { nan_value() }
-//@extract src/indicators/mod.rs impl[OHLCV for HLC]::open
-//@end
-//@extract src/indicators/mod.rs impl[OHLCV for HLC]::high
-//@end
-//@extract src/indicators/mod.rs impl[OHLCV for HLC]::low
-//@end
-//@extract src/indicators/mod.rs impl[OHLCV for HLC]::close
-//@end
-//@extract src/indicators/mod.rs impl[OHLCV for HLC]::volume
-//@end
-}
-impl Candle {
-//@extract src/core/candles.rs impl[Candle]::from pub
-	ensures r.open == src.open_s() && r.high == src.high_s() && r.low == src.low_s() && r.close == src.close_s() && r.volume == src.volume_s(),
-//@end
-}
+//@import hlc.rs.tpl
 
 // ================================================================== EaseOfMovement
 //@extract src/indicators/ease_of_movement.rs struct:EaseOfMovement
